@@ -92,8 +92,9 @@ def validate_repair_traces(v, prop, traces, ev, clause_filter=None):
                 lines = open(tp).read().splitlines()
             evline = json.loads(lines[b["line"] - 1])
             for c in clauses:
+                d4 = bool(b["enc"]) and b["mode"] == "auth" and (b["badchunk"] == 0 or (b["badchunk"] == -1 and b["chunk"] == 0))
                 rec = dict(check="repair-trace", clause=c, mode=b["mode"], enc=b["enc"], comp=b["comp"], st=b["st"],
-                           chunk=b["chunk"], inchunk_lt_tag=(0 < b["inchunk"] < 16) if b["enc"] else False)
+                           chunk=b["chunk"], badchunk=b["badchunk"], first_unverified_chunk_is_0=d4)
                 v.violation(rec, dict(engine="repair", trace=tp, line=b["line"], sid=b["sid"], cut=b["cut"], H=b["H"],
                                       total=b["total"], event=evline))
         if tinfo.get("nbad", 0) > len(tinfo.get("bad", [])):
